@@ -307,6 +307,24 @@ def main_c12(run):
             if list(mod.R) != want:
                 run.violation("deeplet:" + text, f"innermost bindings should be {want}, the program gives {list(mod.R)}: {text}",
                               {"text": text})
+        # local macros and local requires: the variables that hold them are the compiler's too
+        for nm in ("m", "set!", "inc+", "ok?", "a-b", "-x", "_y", "λ"):
+            for text in (f"(defn hyv-f [] (defmacro {nm} [] 1) ({nm}))\n(hyv-f)",
+                         f"(defn hyv-f [] (defmacro {nm} [] 1) (len (local-macros)))\n(hyv-f)",
+                         f"(defn hyv-f [] (let [q 0] (defmacro {nm} [] 1) [q ({nm})]))"):
+                run.case(text)
+                mod = _types.ModuleType("hyv_localmac")
+                try:
+                    tree = _hy_compile(hy.read_many(text), mod)
+                    exec(compile(tree, "<localmac>", "exec"), mod.__dict__)
+                except Exception as x:
+                    run.violation("localmacro:" + text, f"{text}: {type(x).__name__}: {x}", {"text": text})
+                    continue
+                allowed = {"hyv_f", "hy", "len", "q", hy.mangle(nm)}
+                for kind, name in ident_names(tree):
+                    if name in allowed or name.startswith("_hy_"):
+                        continue
+                    intro.setdefault(f"{kind}:{name}", text)
         for key, text in sorted(intro.items()):
             run.violation("introduced:" + key, f"compiled code contains the non-reserved name {key} that is not "
                           f"in the program, e.g. for {text}", {"text": text, "name": key})
